@@ -349,7 +349,7 @@ SPECS["C01"] = {
                    "DispatchMetricMap/Split and real flushData, driven by 2..4 symbolic commands {dispatch a datapoint | flush}; where a worker's select has both a "
                    "queued batch and a flush command ready, both orders are explored (schedule variable). Summed over all flushes every counter equals the sum "
                    "sent, nothing unsent is reported, no series twice within one flush.",
-    "bounds": {"quick": "ingest: k <= 2 metrics; step: counters over 2 names x 2 tag sets, timers/sets over 1 name x 2 tag sets (<= 2 values/members); pipeline: 1..3 workers, <= 3 commands",
+    "bounds": {"quick": "ingest: k <= 2 metrics; step: counters over 2 names x 2 tag sets, timers/sets over 1 name x 2 tag sets (<= 2 values/members); pipeline: 1..3 workers, per-shard queue size 0..2, <= 3 commands",
                "thorough": "ingest k = 3; step: timers and sets over 2x2; pipeline 2 workers x 4 commands"},
     "outside": ["real concurrency: data races between parser, worker and flusher goroutines; the engine runs ONE interleaving of goroutines (run-to-block) plus the explicit select choices",
                 "shutdown", "float rounding of value/rate (math mode: the harness and the code evaluate the same real expression)"],
